@@ -12,4 +12,7 @@ def run(rep, fb, tier):
     run_family("C11", rep, fb, tier, EXTRAS)
 
 
-EXTRAS = []
+EXTRAS = [
+    lambda rep, fb, tier: st.rule_family(rep, fb),
+    lambda rep, fb, tier: st.rule_clone(rep, fb),
+]
